@@ -14,8 +14,14 @@ from mc.lib import crossings
 ID = 'C08'
 LEVEL = 'exploration'
 RULE = (
+    'Function level: every multiset of up to 4 of the 100 two- and '
+    'three-point paths on a 5-position level lattice (non-monotone ones '
+    'included); the level -> intervals mapping is composed as '
+    'build_head_mapping composes it and passed to the real '
+    'get_connected_components, result compared with an independent '
+    'union-find (4.6 million overlap structures real series can produce).  '
     'Every multiset of up to 4 (thorough: 5) pieces from a menu of short '
-    'monotone series (overlapping chains, nested pieces, pieces that touch '
+    'series (recessions that begin with a residual rise, overlapping chains, nested pieces, pieces that touch '
     'only at a level, disjoint pieces, a long lone piece; recession-like '
     'multi-sample pieces and rise-like two-point segments) is passed to the '
     'real get_series_time_offsets in EVERY order and with per-piece axis '
@@ -48,6 +54,9 @@ MENU_RECESSION = [
     ([18.25, 17.0, 15.0], [0, 1200, 4800]),                  # F 15..18
     ([31.0, 28.0, 24.0, 22.5], [0, 3600, 7200, 10800]),      # G 23..30 lone
     ([5.5, 4.5], [0, 3600]),                                 # H 5
+    # recessions that begin with a small residual rise (not monotone)
+    ([6.75, 7.5, 5.5], [0, 1800, 9000]),                     # I 7,7,6
+    ([4.25, 9.25, 8.75, 3.5], [0, 600, 4200, 15000]),        # J 5..9 up, 9..4
 ]
 MENU_RISE = [
     ([2.0, 6.5], [0, 9.0]),        # 2..6
@@ -58,31 +67,159 @@ MENU_RISE = [
     ([23.5, 26.0], [0, 2.0]),      # 24,25
     ([40.0, 52.0], [0, 30.0]),     # 40..51 long lone
     ([11.5, 13.0], [0, 0.5]),      # 12
+    ([7.25, 10.5], [0, 4.0]),      # 8..10 bridges the second and third
+    ([24.75, 41.0], [0, 20.0]),    # 25..40 bridges to the long piece
 ]
 MENUS = {'recession': MENU_RECESSION, 'rise': MENU_RISE}
 SHIFTS = [1000.0, -7.5, 1.6e9]
 
 
 def BOUND(tier):
-    return ('all multisets of 2..%d pieces from two menus of 8 pieces x all '
+    return ('all multisets of up to 4 of 100 lattice paths for the group '
+            'finder; all multisets of 2..%d pieces from two menus of 10 pieces x all '
             'orders x 3k+2 shift vectors; all relabellings of the main group'
             % (4 if tier == 'quick' else 5))
 
 
-def multiset_space(menu, size):
-    combos = list(itertools.combinations_with_replacement(range(8), size))
+def multiset_space(menu, size, n_menu):
+    combos = list(itertools.combinations_with_replacement(
+        range(n_menu), size))
 
     def decode(i):
         return {'menu': menu, 'pieces': list(combos[i])}
-    return Space('get_series_time_offsets/%s menu/%d pieces' % (menu, size),
-                 len(combos), decode)
+    return Space('get_series_time_offsets/%s menu (%d of its pieces)/%d '
+                 'pieces' % (menu, n_menu, size), len(combos), decode)
+
+
+LATTICE = [0.5, 1.5, 2.5, 3.5, 4.5]
+_PIECES = []
+
+
+def lattice_pieces():
+    """Every 2- and 3-point path on the half-integer lattice (non-monotone
+    ones included) with the ordered list of distinct levels it crosses,
+    obtained once from the real regrid through build_head_mapping"""
+    if _PIECES:
+        return _PIECES
+    paths = []
+    for a in LATTICE:
+        for b in LATTICE:
+            if b == a:
+                continue
+            paths.append((a, b))
+            for c in LATTICE:
+                if c != b:
+                    paths.append((a, b, c))
+    for path in paths:
+        t = np.arange(len(path), dtype='float64')
+        mapping = fit_mod.build_head_mapping(
+            [(t, np.array(path, dtype='float64'))], STEP)
+        _PIECES.append((path, list(mapping)))
+    return _PIECES
+
+
+def components_space(k):
+    """Every multiset of k lattice paths: the level -> intervals mapping is
+    composed exactly as build_head_mapping composes it (series sorted by
+    initial level, levels in order of first crossing), so every mapping fed
+    to get_connected_components is one real series can produce"""
+    n = len(lattice_pieces())
+    combos = itertools.combinations_with_replacement(range(n), k)
+    size = 1
+    for i in range(k):
+        size = size * (n + i) // (i + 1)
+
+    def decode(i):
+        # unrank the i-th multiset in lexicographic order
+        out = []
+        lo = 0
+        rem = i
+        for pos in range(k):
+            left = k - pos - 1
+            for v in range(lo, n):
+                # number of multisets of size `left` from values >= v
+                cnt = 1
+                m = n - v
+                for j in range(left):
+                    cnt = cnt * (m + j) // (j + 1)
+                if rem < cnt:
+                    out.append(v)
+                    lo = v
+                    break
+                rem -= cnt
+        return {'kind': 'components', 'pieces': out}
+    del combos
+    return Space('get_connected_components/multisets of %d lattice paths'
+                 % k, size, decode)
+
+
+def run_components(case):
+    pieces = lattice_pieces()
+    ids = case['pieces']
+    viol = []
+    nontrivial = False
+    for order in (list(range(len(ids))), list(range(len(ids)))[::-1]):
+        ranked = sorted(order, key=lambda i: pieces[ids[i]][0][0])
+        mapping = {}
+        for sid, i in enumerate(ranked):
+            for head in pieces[ids[i]][1]:
+                mapping.setdefault(head, set()).add(sid)
+        if not mapping:
+            continue
+        try:
+            got = fit_mod.get_connected_components(
+                {h: set(v) for h, v in mapping.items()})
+        except Exception as exc:  # pylint: disable=broad-except
+            return Result(viol=[('crash:' + cs.exc_site(exc),
+                                 repr(exc)[:200])],
+                          nontrivial=True, outcome='exc')
+        heads = list(mapping)
+        parent = {h: h for h in heads}
+
+        def find(a):
+            while parent[a] != a:
+                a = parent[a]
+            return a
+        for a in heads:
+            for b in heads:
+                if a < b and mapping[a] & mapping[b]:
+                    parent[find(a)] = find(b)
+        want = {}
+        for h in heads:
+            want.setdefault(find(h), set()).add(h)
+        want = sorted(sorted(v) for v in want.values())
+        if len(want) < len(heads) and len(want) > 1:
+            nontrivial = True
+        paths = [pieces[ids[i]][0] for i in ranked]
+        if sorted(sorted(c) for c in got) != want:
+            viol.append((
+                'wrong-connected-groups',
+                'series %r (sorted by initial level): levels -> series %r: '
+                'groups of levels %r, expected %r'
+                % (paths, {h: sorted(v) for h, v in mapping.items()},
+                   [sorted(c) for c in got], want)))
+        else:
+            series_of = [set().union(*[mapping[h] for h in c]) for c in got]
+            multi = [len(s_) > 1 for s_ in series_of]
+            if any(multi) and not multi[0]:
+                viol.append((
+                    'lone-interval-ranked-first',
+                    'series %r: first group %r holds a single interval '
+                    'although a group of several exists'
+                    % (paths, sorted(got[0]))))
+        if viol:
+            break
+    return Result(viol=viol, nontrivial=nontrivial,
+                  outcome=None,
+                  counters={'executions_of_the_real_code': 2})
 
 
 def spaces(tier):
-    out = []
+    out = [components_space(k) for k in (2, 3, 4)]
     for size in ((2, 3, 4) if tier == 'quick' else (2, 3, 4, 5)):
         for menu in ('recession', 'rise'):
-            out.append(multiset_space(menu, size))
+            n_menu = 10 if (tier == 'thorough' or size < 4) else 8
+            out.append(multiset_space(menu, size, n_menu))
     return out
 
 
@@ -175,6 +312,8 @@ def same(sa, sb, tol):
 
 
 def run_case(case):
+    if case.get('kind') == 'components':
+        return run_components(case)
     menu = MENUS[case['menu']]
     ids = case['pieces']
     pieces = [menu[i] for i in ids]
